@@ -4,7 +4,7 @@ Correspondence: every generated history (connect as several users / Hello /
 disconnect / RequestName / ReleaseName / AddMatch / RemoveMatch / method calls with
 and without reply / replies / signals / messages around the size limit) is replayed
 against a fresh dbus-daemon built from /repo's working tree with generated <limit>
-values (harness/py/limits_run.py, raw-wire clients) and through the extracted Coq
+values (connect as several users, authenticate, Hello, ...) (harness/py/limits_run.py, raw-wire clients) and through the extracted Coq
 model (coq/Limits/Limits.v, which runs the C04 registry model for the names); after
 every event the messages every connection received (per socket, in order), and at the
 probes ListQueuedOwners / ListNames, are compared.  An independent counting oracle
@@ -18,7 +18,13 @@ import limits_run
 
 HARNESSES = ()
 MLS = ("limits",)
-THEOREMS = []
+THEOREMS = ["C13_limits_never_exceeded", "C13_within_limits", "C13_counters_exact", "C13_invariant",
+            "C13_refusal_is_noop_partial", "C13_refusal_effect", "C13_refusal_is_noop_refuted", "C13_full_statement_refuted",
+            "C13_refused_exactly_when_exhausted", "C13_refused_iff_exhausted_inv", "C13_unauthenticated_limit_literal_refuted",
+            "C13_below_limit_unaffected", "C13_capacity_usable", "C13_free_connection", "C13_free_incomplete_by_disconnect",
+            "C13_free_incomplete_by_hello", "C13_free_name", "C13_free_rule", "C13_free_reply_by_answer",
+            "C13_free_reply_by_timeout", "C13_free_reply_by_callee_disconnect",
+            "C13_size_test", "C13_oversize_only_sender", "C13_fitting_message_harmless"]
 
 NPROC = vlib.NPROC
 NAMES = ["com.example.A", "com.example.B", "org.x.y-z", "a.b", "c.d", "e.f"]
@@ -47,7 +53,102 @@ def lim(completed=BIG, per_user=BIG, incomplete=BIG, names=BIG, rules=BIG, repli
 # ---------------------------------------------------------------------------
 # targeted boundary histories
 # ---------------------------------------------------------------------------
+class Shadow:
+    """just enough bookkeeping for the generators to name connections that exist (never used as an oracle:
+    histories are cut where the model calls an event ill-formed)"""
+
+    def __init__(self, limits):
+        self.lim = limits
+        self.nxt = 0
+        self.alive, self.active, self.authed, self.uid = [], set(), set(), {}
+
+    def n_inc(self):
+        return sum(1 for c in self.alive if c not in self.active)
+
+    def connect(self, u):
+        if self.n_inc() >= self.lim[2]:
+            return None
+        c = self.nxt
+        self.nxt += 1
+        self.alive.append(c)
+        self.uid[c] = u
+        return c
+
+    def hello(self, c):
+        if c in self.alive and c in self.authed and c not in self.active:
+            nu = sum(1 for x in self.active if self.uid[x] == self.uid[c])
+            if len(self.active) < self.lim[0] and nu < self.lim[1]:
+                self.active.add(c)
+
+    def drop(self, c):
+        if c in self.alive:
+            self.alive.remove(c)
+            self.active.discard(c)
+            self.authed.discard(c)
+
+    def apply(self, e):
+        """effect of an already formed event (targeted histories)"""
+        k, parts = e[0], e[1:].split(",")
+        if k == "C":
+            return self.connect(int(parts[0]))
+        if k in "QNS":
+            return None
+        c = int(parts[0])
+        if k == "U":
+            self.authed.add(c)
+        elif k == "H":
+            self.hello(c)
+        elif k == "D":
+            self.drop(c)
+        elif k in "KEY" and c not in self.active:
+            self.drop(c)
+        elif k == "M" and int(parts[1]) > self.lim[6]:
+            self.drop(c)
+        return None
+
+
+def with_auth(limits, ev):
+    """the basic targeted histories are written without the authentication step: every accepted connection
+    authenticates at once; calls carry no REPLY_SERIAL"""
+    out, sh = [], Shadow(limits)
+    for e in ev:
+        if e[0] == "K" and e.count(",") == 3:
+            e += ",0"
+        out.append(e)
+        c = sh.apply(e)
+        if e[0] == "C" and c is not None:
+            out.append("U%d" % c)
+            sh.apply("U%d" % c)
+    return out
+
+
 def gen_targeted():
+    return [(l, with_auth(l, ev)) for l, ev in gen_targeted_raw()] + gen_targeted_auth()
+
+
+def gen_targeted_auth():
+    """histories about authentication and about calls that carry a REPLY_SERIAL"""
+    out = []
+    for v in (1, 2, 3):
+        # authenticated connections that have not said Hello keep occupying the slots
+        ev = ["C0", "U0", "H0"]
+        for i in range(v):
+            ev += ["C%d" % UIDS[i % 4], "U%d" % (i + 1)]
+        ev += ["C0", "H1", "C0", "C0", "N"]
+        out.append((lim(incomplete=v), ev))
+        # unauthenticated ones do too; closing one frees a slot
+        ev = ["C0", "U0", "H0"] + ["C1"] * v + ["C1", "D1", "C1", "U%d" % (v + 1), "H%d" % (v + 1), "C0", "N"]
+        out.append((lim(incomplete=v), ev))
+        # a refused call that carries a REPLY_SERIAL has used up the slot that serial referred to
+        ev = ["C0", "U0", "H0", "C0", "U1", "H1", "C0", "U2", "H2", "K2,1,7,0,0"] + ["K1,2,%d,0,0" % (20 + i) for i in range(v)]
+        ev += ["K1,2,30,0,7", "K2,1,8,0,0" if v == 1 else "Y1,2,7", "K1,2,31,1,20", "K1,2,32,0,0", "D1"]
+        out.append((lim(replies=v), ev))
+        ev = ["C0", "U0", "H0", "C0", "U1", "H1", "K1,0,7,0,0", "K0,1,20,0,0", "K0,1,20,0,7", "K1,0,7,0,0", "D1"]
+        out.append((lim(replies=max(v, 2)), ev))
+    return out
+
+
+def gen_targeted_raw():
     out = []
     for v in (1, 2, 3, 4):
         # --- max_completed_connections = v: fill, refuse, retry, free by disconnecting, retry
@@ -134,7 +235,7 @@ def gen_targeted():
 
 TIMEOUT_LEG = [
     # (limits, reply_timeout ms, events): one outstanding call at a time, so that expiry order cannot matter
-    (lim(replies=1), 700, ["C0", "H0", "C0", "H1", "K1,0,1000,0", "K1,0,1001,0", "T1,1000", "K1,0,1002,0", "K1,0,1003,0", "Y0,1,1002", "K1,0,1004,0"]),
+    (lim(replies=1), 1500, ["C0", "U0", "H0", "C0", "U1", "H1", "K1,0,1000,0,0", "K1,0,1001,0,0", "T1,1000", "K1,0,1002,0,0", "K1,0,1003,0,0", "Y0,1,1002", "K1,0,1004,0,0"]),
 ]
 
 
@@ -157,107 +258,101 @@ def gen_random(rnd, length):
     msg = rnd.choice((600, 777, 1024))
     limits = tuple(lv) + (msg,)
     names = rnd.sample(NAMES, rnd.choice((2, 3, 4)))
-    ev = ["C0", "H0"]
-    nxt = 1
-    alive, active, uid = [0], {0}, {0: 0}
-    n_inc = 0
+    sh = Shadow(limits)
+    ev = []
+
+    def emit(e):
+        ev.append(e)
+        return sh.apply(e)
+    emit("C0"); emit("U0"); emit("H0")
     pending = []              # (caller, callee, serial) believed outstanding
     next_serial = {}
-    used_rules = set()
 
-    def drop(c):
-        nonlocal n_inc
-        if c in alive:
-            alive.remove(c)
-            if c in active:
-                active.discard(c)
-            else:
-                n_inc -= 1
-            pending[:] = [p for p in pending if p[0] != c and p[1] != c]
+    def forget(c):
+        pending[:] = [p for p in pending if p[0] != c and p[1] != c]
 
     for _ in range(length):
         r = rnd.random()
-        act = sorted(active)
+        act = sorted(sh.active)
+        authed_inactive = [c for c in sh.alive if c in sh.authed and c not in sh.active]
+        unauth = [c for c in sh.alive if c not in sh.authed]
         if r < 0.13:
             u = rnd.choice(UIDS) if rnd.random() < 0.8 else rnd.choice(UIDS[:2])
-            ev.append("C%d" % u)
-            if n_inc < limits[2]:
-                alive.append(nxt)
-                uid[nxt] = u
-                nxt += 1
-                n_inc += 1
-        elif r < 0.25:
-            inc = [c for c in alive if c not in active]
-            c = rnd.choice(inc) if inc and rnd.random() < 0.9 else rnd.choice(alive)
-            ev.append("H%d" % c)
-            if c not in active:
-                nu = sum(1 for x in active if uid[x] == uid[c])
-                if len(active) < limits[0] and nu < limits[1]:
-                    active.add(c)
-                    n_inc -= 1
-        elif r < 0.31:
-            cands = [c for c in alive if c != 0]
+            c = emit("C%d" % u)
+            if c is not None and rnd.random() < 0.8:
+                emit("U%d" % c)
+        elif r < 0.16:
+            if unauth:
+                emit("U%d" % rnd.choice(unauth))
+        elif r < 0.27:
+            cands = authed_inactive if authed_inactive and rnd.random() < 0.9 else [c for c in sh.alive if c in sh.authed]
+            emit("H%d" % rnd.choice(cands))
+        elif r < 0.33:
+            cands = [c for c in sh.alive if c != 0]
             if cands:
                 c = rnd.choice(cands)
-                ev.append("D%d" % c)
-                drop(c)
+                emit("D%d" % c)
+                forget(c)
         elif r < 0.47:
-            c = rnd.choice(act) if rnd.random() < 0.95 else rnd.choice(alive)
+            c = rnd.choice(act) if rnd.random() < 0.95 or not authed_inactive else rnd.choice(authed_inactive)
             name = rnd.choice(names) if rnd.random() < 0.95 else rnd.choice(("foo", ":1.0", "org.freedesktop.DBus"))
-            ev.append(R(c, name, rnd.randrange(8)))
+            emit(R(c, name, rnd.randrange(8)))
         elif r < 0.54:
-            ev.append(L(rnd.choice(act), rnd.choice(names)))
+            emit(L(rnd.choice(act), rnd.choice(names)))
         elif r < 0.66:
-            c = rnd.choice(act) if rnd.random() < 0.95 else rnd.choice(alive)
+            c = rnd.choice(act) if rnd.random() < 0.95 or not authed_inactive else rnd.choice(authed_inactive)
             rule = "x" if rnd.random() < 0.08 else str(rnd.choice((1, 1, 2, 3, 4)))
-            ev.append("A%d,%s" % (c, rule))
-            used_rules.add(rule)
+            emit("A%d,%s" % (c, rule))
         elif r < 0.71:
-            ev.append("V%d,%s" % (rnd.choice(act), "x" if rnd.random() < 0.05 else str(rnd.choice((1, 2, 3, 4)))))
+            emit("V%d,%s" % (rnd.choice(act), "x" if rnd.random() < 0.05 else str(rnd.choice((1, 2, 3, 4)))))
         elif r < 0.85:
-            c = rnd.choice(act) if rnd.random() < 0.96 else rnd.choice(alive)
-            if c == 0 and 0 not in active:
-                continue
-            d = rnd.choice(act) if rnd.random() < 0.95 else rnd.randrange(nxt + 1)
+            c = rnd.choice(act) if rnd.random() < 0.96 or not authed_inactive else rnd.choice(authed_inactive)
+            d = rnd.choice(act) if rnd.random() < 0.95 else rnd.randrange(sh.nxt + 1)
             if pending and rnd.random() < 0.06:
                 c, d, s = rnd.choice(pending)           # same serial again
-                if c not in active:
+                if c not in sh.active:
                     continue
             else:
                 s = next_serial.get(c, 1000)
                 next_serial[c] = s + 1
             nr = rnd.random() < 0.1
-            ev.append("K%d,%d,%d,%d" % (c, d, s, 1 if nr else 0))
-            if c not in active:
-                drop(c)
-            elif d in active and not nr and (c, d, s) not in pending and sum(1 for p in pending if p[0] == c) < limits[5]:
-                pending.append((c, d, s))
+            rs = 0
+            if rnd.random() < 0.08:
+                back = [p for p in pending if p[0] == d and p[1] == c]
+                rs = rnd.choice(back)[2] if back and rnd.random() < 0.8 else rnd.choice((1000, 1001, 5003))
+            was_active = c in sh.active
+            emit("K%d,%d,%d,%d,%d" % (c, d, s, 1 if nr else 0, rs))
+            if not was_active:
+                forget(c)
+            elif d in sh.active:
+                if rs:
+                    pending[:] = [p for p in pending if p != (d, c, rs)]
+                if not nr and (c, d, s) not in pending and sum(1 for p in pending if p[0] == c) < limits[5]:
+                    pending.append((c, d, s))
         elif r < 0.92:
             if pending and rnd.random() < 0.93:
                 p = rnd.choice(pending)
-                ev.append("Y%d,%d,%d" % (p[1], p[0], p[2]))
+                emit("Y%d,%d,%d" % (p[1], p[0], p[2]))
                 pending.remove(p)
             else:
-                d = rnd.choice(act)
-                ev.append("Y%d,%d,%d" % (d, rnd.choice(act), rnd.choice((1000, 1001, 5007))))
+                emit("Y%d,%d,%d" % (rnd.choice(act), rnd.choice(act), rnd.choice((1000, 1001, 5007))))
         elif r < 0.96:
-            c = rnd.choice(act)
-            ev.append("E%d,%d" % (c, rnd.choice((1, 2, 3, 4))))
+            emit("E%d,%d" % (rnd.choice(act), rnd.choice((1, 2, 3, 4))))
         elif r < 0.985:
-            c = rnd.choice(alive)
+            c = rnd.choice([x for x in sh.alive if x in sh.authed])
             size = msg + rnd.choice((-9, -8, -1, 0, 0, 1, 1, 7, 8, 9, 1000))
             if c == 0:
                 size = min(size, msg)
-            ev.append("M%d,%d" % (c, size))
+            emit("M%d,%d" % (c, size))
             if size > msg:
-                drop(c)
+                forget(c)
         else:
-            ev.append(rnd.choice(("N", "Q" + hx(rnd.choice(names)))))
+            emit(rnd.choice(("N", "Q" + hx(rnd.choice(names)))))
     for n in names:
         ev.append("Q" + hx(n))
     ev.append("N")
-    for t in (1, 2, 3, 4):
-        ev.append("E0,%d" % t)
+    for tg in (1, 2, 3, 4):
+        ev.append("E0,%d" % tg)
     return (limits, ev)
 
 
@@ -285,12 +380,17 @@ class Oracle:
         self.rules = {}           # conn -> list of rules
         self.calls = []           # (caller, callee, serial)
         self.nconn = 0
+        self.authed = set()
+        self.known = []           # recorded deviations seen: (finding id, event index)
 
     def n_user(self, u):
         return sum(1 for c in self.registered if self.open[c] == u)
 
     def n_incomplete(self):
         return sum(1 for c in self.open if c not in self.registered)
+
+    def n_unauthenticated(self):
+        return sum(1 for c in self.open if c not in self.authed)
 
     def held(self, c):
         return (1 if c in self.registered else 0) + len(self.names.get(c, {}))
@@ -300,6 +400,7 @@ class Oracle:
 
     def gone(self, c):
         self.open.pop(c, None)
+        self.authed.discard(c)
         self.registered.discard(c)
         self.names.pop(c, None)
         self.rules.pop(c, None)
@@ -335,13 +436,19 @@ class Oracle:
                 self.nconn += 1
             elif self.n_incomplete() < self.lim[2]:
                 bad.append("a connection was not accepted although only %d unregistered connections exist (max_incomplete_connections=%d)" % (self.n_incomplete(), self.lim[2]))
+            elif self.n_unauthenticated() < self.lim[2]:
+                # the literal reading ("not-yet-authenticated connections"): recorded deviation C13-D1
+                self.known.append("C13-D1")
             return bad
         if kind in "QNS":
             return bad
         c = int(parts[0])
         mine = per.get(c, [])
         refused = "err:LimitsExceeded" in mine
-        if kind == "H":
+        if kind == "U":
+            if "authok" in mine:
+                self.authed.add(c)
+        elif kind == "H":
             u = self.open.get(c)
             if any(t.startswith("hello:") for t in mine):
                 if len(self.registered) >= self.lim[0]:
@@ -383,8 +490,14 @@ class Oracle:
             if "ack" in mine and parts[1] in self.rules.get(c, []):
                 self.rules[c].remove(parts[1])
         elif kind == "K":
-            d, s, nr = int(parts[1]), int(parts[2]), parts[3] == "1"
+            d, s, nr, rs = int(parts[1]), int(parts[2]), parts[3] == "1", int(parts[4])
             delivered = ("call:%d:%d" % (c, s)) in per.get(d, [])
+            if rs and c in self.registered and d in self.registered and (d, c, rs) in self.calls:
+                # the message counts as c's answer to d's call rs whatever its type (as C09 records); if the
+                # message is then refused, the slot is gone all the same: recorded deviation C13-D2 (= C09 F7b)
+                self.calls.remove((d, c, rs))
+                if not delivered:
+                    self.known.append("C13-D2")
             n = self.n_calls(c)
             if delivered and not nr:
                 if n >= self.lim[5]:
@@ -421,6 +534,17 @@ class Oracle:
         return bad
 
 
+def all_known():
+    """recorded findings: known-findings.json, plus this package's proposed entries until they are merged there"""
+    known = {k["id"]: k for k in vlib.load_known("C13")}
+    p = os.path.join(vlib.VERIF, "notes", "C13.findings.json")
+    if os.path.exists(p):
+        for k in json.load(open(p)):
+            if k.get("property") == "C13" and k.get("status") == "known":
+                known.setdefault(k["id"], k)
+    return known
+
+
 def replay_of(case, step, impl, model):
     limits, ev, rt = case
     d = {"limits": list(limits), "limit_names": limits_run.LIMIT_NAMES, "events": ev, "reply_timeout": rt, "failing_step": step,
@@ -441,6 +565,7 @@ def run(ctx):
     rep, tier, info = ctx["rep"], ctx["tier"], ctx["info"]
     rnd = random.Random(ctx["seed"])
     quick = tier == "quick"
+    known = all_known()
     cases, origin = [], {}
 
     def add(kind, cs):
@@ -455,7 +580,7 @@ def run(ctx):
         add("corpus", load_corpus())
         add("targeted", gen_targeted())
         add("timeout", [(l, ev, rt) for l, rt, ev in TIMEOUT_LEG])
-        add("random", [gen_random(rnd, rnd.choice((15, 25, 40))) for _ in range(700 if quick else 30000)])
+        add("random", [gen_random(rnd, rnd.choice((15, 25, 40))) for _ in range(1500 if quick else 30000)])
     # pass 1: cut every history before the first event the model calls ill-formed (generator slack)
     model, mcr = vlib.run_lines(info["model_limits"], model_lines(cases))
     for i, m in enumerate(model):
@@ -475,7 +600,7 @@ def run(ctx):
     with multiprocessing.get_context("fork").Pool(NPROC) as pool:
         impl = pool.map(limits_run.worker, jobs, chunksize=2)
 
-    stats = {"events": 0, "refusals": {}, "not_accepted": 0, "closed_by_bus": 0, "noreply": 0, "probes": 0, "kinds": {}}
+    stats = {"events": 0, "refusals": {}, "not_accepted": 0, "closed_by_bus": 0, "noreply": 0, "probes": 0, "kinds": {}, "recorded_deviations": {}}
     nontrivial = set()
     validated = 0
     for idx, (case, mline, (ires, ierr, ibad)) in enumerate(zip(cases, model, impl)):
@@ -527,6 +652,14 @@ def run(ctx):
                 complaints[0], ev[complaints[0]], " ".join(ev[:complaints[0] + 1])[-300:], limits, ires[complaints[0]], "; ".join(complaints[1])),
                 replay_of(case, complaints[0], ires, mres))
             continue
+        unrecorded = [k for k in orc.known if k not in known]
+        if unrecorded:
+            rep.violation("history [%s] (limits %s): code and model agree, the property text is not met (%s) and no such finding is recorded" % (
+                " ".join(ev)[:300], limits, ", ".join(sorted(set(unrecorded)))), replay_of(case, None, ires, mres))
+            continue
+        for k in orc.known:
+            rep.known(known[k], {"limits": list(limits), "events": ev[:40]})
+            stats["recorded_deviations"][k] = stats["recorded_deviations"].get(k, 0) + 1
         validated += 1
         interesting = False
         for i, e in enumerate(ev):
@@ -553,18 +686,21 @@ def run(ctx):
     stepn = max(1, len(cases) // 10)
     rep.coverage.update({
         "evaluations": len(cases), "distinct_nontrivial": len(nontrivial),
-        "rule": "targeted fill / refuse / free / refill histories for each of the six count limits at values 1-4 (free by release, leaving a queue, "
+        "rule": "corpus (incl. the two refutation witnesses); targeted fill / refuse / free / refill histories for each of the six count limits at values 1-4 (free by release, leaving a queue, "
                 "replacement with DO_NOT_QUEUE, RemoveMatch, reply, callee or caller disconnect, Hello, disconnect, being thrown out), messages of "
-                "max-8..max+9 and 3*max bytes by registered and unregistered senders; one reply-timeout history; random histories of 15-40 events "
+                "max-8..max+9 and 3*max bytes by registered and unregistered senders; authenticated-but-unregistered and unauthenticated connections holding "
+                "incomplete slots; calls carrying a REPLY_SERIAL refused at the limit / as duplicates; one reply-timeout history; random histories of 15-40 events "
                 "over up to ~8 connections of 4 users, 2-4 names, 4 match rules, limits drawn from 1-4 or 64, max_message_size 600/777/1024; "
                 "non-trivial = at least one LimitsExceeded refusal, not-accepted connection or bus-initiated disconnection; distinct = distinct (limits, events)",
         "samples": [{"limits": list(cases[i][0]), "events": cases[i][1][:40], "implementation_last": (impl[i][0] or ["-"])[-1]} for i in range(0, len(cases), stepn)][:10],
         "input_distribution": dist, "traces_validated_against_impl": validated, "events_compared": stats["events"],
         "event_kinds": stats["kinds"], "limit_refusals_by_event_kind": stats["refusals"], "connections_not_accepted": stats["not_accepted"],
-        "bus_initiated_disconnections": stats["closed_by_bus"], "noreply_errors": stats["noreply"], "probes": stats["probes"],
+        "bus_initiated_disconnections": stats["closed_by_bus"], "noreply_errors": stats["noreply"], "probes": stats["probes"], "recorded_deviations_seen": stats["recorded_deviations"],
         "disagreements_checked": len(rep.violations), "exhaustive": False,
-        "explanation": "PROVED (Coq, all histories, all limit values >= 1): the model's counters equal the true counts and stay within the limits; a request answered "
-                       "LimitsExceeded / a connection not accepted leaves the model state unchanged; limits influence a step only through refusal; capacity freed is usable again; "
+        "explanation": "PROVED (Coq, all histories, all limit values >= 1): the model's counters equal the true counts and stay within the limits (also the number of "
+                       "unauthenticated connections); a plain request answered LimitsExceeded / a connection not accepted leaves the model state unchanged (refuted for method calls that "
+                       "carry a REPLY_SERIAL: C13-D2, exact effect proved); refused exactly when the demanded resource's true count is at its limit (the literal 'unauthenticated' reading "
+                       "refuted: C13-D1); limits influence a step only through refusal; each way of freeing lowers the true count by one and what is not exhausted is not refused; "
                        "an oversize message removes only its sender.  EXPLORED (correspondence, not proved): that dbus-daemon behaves like the model - messages per socket in order "
                        "after every event, ListQueuedOwners / ListNames probes, signal delivery; the reply timeout (one timed history), the pause of accept() (observed through "
                        "the absence of an answer to AUTH after 8 main-loop round trips), EOF on the oversize sender only.  Not covered: OOM paths, max_incoming_bytes / "
